@@ -85,7 +85,7 @@ func execSchedDoc(c schedDocCase, src core.Source) (res core.Result) {
 func TestC11Sched(t *testing.T) {
 	r := core.Begin(t, "C11")
 	defer r.End()
-	core.Rapid(r, core.Check[schedDocCase]{Name: "schedules", Gen: genSchedDoc(r.N(8, 64)), Exec: execSchedDoc}, r.N(300, 3000))
+	core.Rapid(r, core.Check[schedDocCase]{Name: "schedules", Gen: genSchedDoc(r.N(8, 32)), Exec: execSchedDoc}, r.N(300, 1500))
 }
 
 // ---------------------------------------------------------------- C12: after ParseSource ended no scanner goroutine is left (exact, under the scheduler)
